@@ -256,6 +256,25 @@ where
             xs.push((cls, comps, y));
         }
     }
+    // a later 48-byte component with its top three bits set (value >= 2^381): only the FIRST byte of the encoding
+    // carries flags, everywhere else these bits belong to the integer and make it out of range
+    let mut late: Vec<(Vec<BigUint>, Option<Vec<BigUint>>)> = vec![];
+    for pos in 1..m {
+        for topbits in [0x80u32, 0x40, 0x20, 0xe0] {
+            let mut comps = gx.clone();
+            comps[pos] = &comps[pos] + (BigUint::from(topbits) << 376);
+            late.push((comps, None));
+        }
+    }
+    if !compressed {
+        for pos in 0..m {
+            for topbits in [0x80u32, 0x40, 0x20, 0xe0] {
+                let mut yc = gy.to_wire();
+                yc[pos] = &yc[pos] + (BigUint::from(topbits) << 376);
+                late.push((gx.clone(), Some(yc)));
+            }
+        }
+    }
     let mut cases: Vec<WireCase> = vec![];
     let mut push_flags = |body: Vec<u8>, class: &'static str, cases: &mut Vec<WireCase>| {
         for f in 0u8..8 {
@@ -294,6 +313,13 @@ where
                 push_flags(body, c2, &mut cases);
             }
         }
+    }
+    for (xc, yc) in &late {
+        let mut body = bytes_of(xc);
+        if !compressed {
+            body.extend(bytes_of(&yc.clone().unwrap_or_else(|| gy.to_wire())));
+        }
+        push_flags(body, "flag-like top bits set in a later component (value >= 2^381)", &mut cases);
     }
     // infinity encodings: canonical, with the sort flag, with every single non-zero byte position
     let len = zcash::enc_len::<C::K>(compressed);
